@@ -151,6 +151,12 @@ def answer (line : String) : String :=
       | "haystack", [a, b, c, e, p] => Gen.commuteHaystack a b c (e == 1) (p == 1) draws
       | "blockers1", [n, pp] => Gen.moveAroundBlockersOne n (pp : Rat) draws
       | "blockers2", [n, pp] => Gen.moveAroundBlockersTwo n (pp : Rat) draws
+      | "simplify", [nt, nl, ov, opc, pp, ovp, np, sp, svp, gp, na] =>
+        let spec : Gen.OpSpec := match opc with
+          | 1 => .fixed .plus | 2 => .fixed .minus | 3 => .fixed .times
+          | 4 => .choice [.plus, .minus] | 5 => .choice [.plus, .times] | _ => .random
+        Gen.simplifyMultipleTerms nt nl (ov == 1) spec (pp : Rat) (ovp : Rat) (np : Rat) (sp : Rat) (svp : Rat) (gp : Rat)
+          (if na == 99 then none else some na) draws
       | _, _ => none
     let bres : Option (Option (BinomialProblem × Nat)) :=
       match name, params with
